@@ -7,6 +7,10 @@
      [e |-> "Srv",  i, req, ans, has]  the virtual ECU received bytes `req` and produced `ans` (has = FALSE: suppressed)
      [e |-> "Ret",  i, kind, pdu]      the caller got kind \in {"Reply","Missing","Other"} (pdu = reply bytes)
      [e |-> "Drop", i]                 the gateway deliberately withheld the answer of request i
+     [e |-> "Late", i]                 the gateway delivers the answer of request i only after the client's timeout:
+                                       it will hit a LATER request (see spec/System.tla: refused as mismatch when
+                                       the identifiers differ, indistinguishable when they are equal); from then on
+                                       only Y1 and Y4 are judged and "Mismatch" becomes an admissible outcome
 
    Clauses
      Y1  what reaches the virtual ECU is byte-identical to what the caller asked for
@@ -17,7 +21,7 @@
 *)
 EXTENDS Naturals, Sequences, FiniteSets, TLC
 
-M0 == [req |-> <<>>, ans |-> <<>>, has |-> FALSE, seen |-> 0, dropped |-> FALSE, i |-> 0, fail |-> "ok"]
+M0 == [req |-> <<>>, ans |-> <<>>, has |-> FALSE, seen |-> 0, dropped |-> FALSE, i |-> 0, stale |-> FALSE, fail |-> "ok"]
 Fail(m, l) == [m EXCEPT !.fail = l]
 
 Step(c, m, e) ==
@@ -27,8 +31,10 @@ Step(c, m, e) ==
          ELSE IF m.seen >= c.retries + 1 THEN Fail(m, "Y4/request-reached-the-ecu-more-often-than-transmissions-allowed")
          ELSE [m EXCEPT !.seen = @ + 1, !.ans = e.ans, !.has = e.has]
     [] e.e = "Drop" -> [m EXCEPT !.dropped = TRUE]
+    [] e.e = "Late" -> [m EXCEPT !.dropped = TRUE, !.stale = TRUE]
     [] e.e = "Ret" ->
-         IF e.kind = "Reply" THEN
+         IF m.stale THEN (IF e.kind \in {"Reply", "Missing", "Mismatch"} THEN m ELSE Fail(m, "Y3/unexpected-exception"))
+         ELSE IF e.kind = "Reply" THEN
             (IF m.seen >= 1 /\ m.has /\ e.pdu = m.ans THEN m ELSE Fail(m, "Y2/reply-is-not-the-ecus-answer-to-this-request"))
          ELSE IF e.kind = "Missing" THEN
             (IF m.dropped \/ ~m.has \/ m.seen = 0 THEN m ELSE Fail(m, "Y3/answer-delivered-in-time-but-reported-missing"))
